@@ -121,7 +121,14 @@ def specAlloc (bel : Beliefs) (before after : Store) (now : Nat) (c : Client) (r
         (if r.start < now then ["unsat:C10.record:start-before-request"] else []) ++
         (if r.expiry < now + L then ["unsat:C10.record:expires-early"] else [])
       | none => ["unsat:C10.record:no-row"]
-    let others := if (sortRows (after.filter (·.addr != x))) == (sortRows (before.filter (·.addr != x))) then []
+    -- a reply never moves the end of the lease the client already has for the address earlier (as long as what is left
+    -- is within the maximum in force: `C10_never_shortens`); read off the two tables alone
+    let shorter := match rowOf before x, rowOf after x with
+      | some r0, some r1 =>
+        if r0.client == c && r1.client == c && r0.expiry > r1.start && r0.expiry - r1.start ≤ hi && r1.expiry < r0.expiry
+        then ["unsat:C10.never_shortens:record-ends-earlier", "unsat:C01.acknowledged_not_undercut:record-ends-earlier"] else []
+      | _, _ => []
+    let others := shorter ++ if (sortRows (after.filter (·.addr != x))) == (sortRows (before.filter (·.addr != x))) then []
                   else ["unsat:C13.only_own_row:other-row-changed"]
     keep ++ inpool ++ bounds ++ record ++ others
   | .err k =>
